@@ -171,6 +171,47 @@ def big_target(rng):
     return None
 
 
+def returned_below(rng, g):
+    """a spec that raises its own error after its last sub-evaluation RETURNED normally while something below
+    that sub-evaluation had failed and was caught (the trace must stop at the spec that raised)"""
+    miss = {'k': 'str', 's': rng.choice(['zz', 'zz.q', 'nope'])}
+    S = lambda x: {'k': 'str', 's': x}
+
+    def caught():
+        # a sub-spec that returns normally although something inside it failed
+        p = rng.random()
+        if p < 0.35:
+            return {'k': 'not', 'c': miss}
+        if p < 0.6:
+            return {'k': 'coalesce', 'subs': [miss], 'dflt': {'k': 'val', 'v': {'i': 0}}, 'dflt_factory': None,
+                    'skip': None, 'skip_exc': ['GlomError']}
+        if p < 0.8:
+            return {'k': 'or', 'cs': [{'k': 'not', 'c': {'k': 't', 'steps': []}}, {'k': 'not', 'c': miss}]}
+        return {'k': 'tuple', 'xs': [{'k': 't', 'steps': []}, {'k': 'not', 'c': miss}]}
+
+    p = rng.random()
+    if p < 0.35:
+        spec = {'k': 'not', 'c': caught()}
+    elif p < 0.6:
+        spec = {'k': 'invoke', 'func': g.fn(rng.choice(['raise_ve', 'raise_multiline'])),
+                'blocks': [{'op': 'S', 'pos': [caught()], 'kw': []}]}
+    elif p < 0.8:
+        spec = {'k': 'match', 's': {'k': 'dict', 'es': [[S('b_required'), {'k': 'ty', 'name': 'int'}],
+                                                       [{'k': 'not', 'c': S('x')}, {'k': 'not', 'c': S('y')}]]}}
+    else:
+        spec = {'k': 'not', 'c': {'k': 'not', 'c': {'k': 'not', 'c': caught()}}}
+    # somewhere inside a chain / a dict value / a branch
+    w = rng.random()
+    if w < 0.25:
+        spec = {'k': 'tuple', 'xs': [{'k': 't', 'steps': []}, spec]}
+    elif w < 0.4:
+        spec = {'k': 'dict', 'es': [[S('k'), spec]]}
+    elif w < 0.55:
+        spec = {'k': 'coalesce', 'subs': [miss, spec], 'dflt': None, 'dflt_factory': None, 'skip': None,
+                'skip_exc': ['KeyError']}
+    return spec
+
+
 def generate(rng, tier, scale, **focus):
     want = (2500 if tier == 'quick' else 40000) * scale
     made = 0
@@ -184,6 +225,10 @@ def generate(rng, tier, scale, **focus):
             t = g.target()
         depth = rng.choice([2, 3, 3]) if tier == 'quick' else rng.choice([2, 3, 3, 4])
         spec = g.spec(t, depth)
+        if rng.random() < 0.1:
+            spec = returned_below(rng, g)
+            if rng.random() < 0.5:
+                t = {'a': 1}
         if rng.random() < 0.08:
             # the original error has a multi-line message (blank and caret-only lines included)
             spec = {'k': rng.choice(['tuple', 'pipe']), 'xs': [spec, g.fn(rng.choice(['raise_multiline', 'nested_glom_fail']))]}
